@@ -256,4 +256,82 @@ theorem lookup_isSome_iff (d : List (String × V)) (k : String) : (d.lookup k).i
       simp only [h1, h2, Bool.false_or]
       exact ih
 
+/-! ### in-place changes along a path -/
+
+theorem modPath_dict_cons (d : List (String × V)) (k : String) (ks : List V) (f : V → M V) (sub sub' : V)
+    (h1 : d.lookup k = some sub) (h2 : modPath sub ks f = .ok sub') :
+    modPath (.dict d) (.str k :: ks) f = .ok (.dict (dictPut d k sub')) := by
+  rw [modPath_cons, getItem_dict, h1]
+  show (modPath sub ks f >>= fun sub' => setItem (.dict d) (.str k) sub') = _
+  rw [h2]; rfl
+
+theorem modPath_dict_cons_err (d : List (String × V)) (k : String) (ks : List V) (f : V → M V) (sub : V) (e : CErr)
+    (h1 : d.lookup k = some sub) (h2 : modPath sub ks f = .error e) :
+    modPath (.dict d) (.str k :: ks) f = .error e := by
+  rw [modPath_cons, getItem_dict, h1]
+  show (modPath sub ks f >>= fun sub' => setItem (.dict d) (.str k) sub') = _
+  rw [h2]; rfl
+
+/-- a change of `definitions.LanguageAsset.definitions` -/
+theorem modPath_assetDefs (one : List V) (ad ad' : List (String × V)) (gl : V) (f : V → M V)
+    (h : f (.dict ad) = .ok (.dict ad')) :
+    modPath (skel (group "LanguageAsset" (some one) ad) gl)
+      [.str "definitions", .str "LanguageAsset", .str "definitions"] f
+    = .ok (skel (group "LanguageAsset" (some one) ad') gl) := by
+  unfold skel group
+  rw [modPath_dict_cons _ _ _ _ _ _ rfl (modPath_dict_cons _ _ _ _ _ _ rfl (modPath_dict_cons _ _ _ _ _ _ rfl
+    (by rw [modPath_nil]; exact h)))]
+  rfl
+
+/-- a change of `definitions.LanguageAsset.oneOf` -/
+theorem modPath_assetOneOf (one one' : List V) (ad : List (String × V)) (gl : V) (f : V → M V)
+    (h : f (.list one) = .ok (.list one')) :
+    modPath (skel (group "LanguageAsset" (some one) ad) gl)
+      [.str "definitions", .str "LanguageAsset", .str "oneOf"] f
+    = .ok (skel (group "LanguageAsset" (some one') ad) gl) := by
+  unfold skel group
+  rw [modPath_dict_cons _ _ _ _ _ _ rfl (modPath_dict_cons _ _ _ _ _ _ rfl (modPath_dict_cons _ _ _ _ _ _ rfl
+    (by rw [modPath_nil]; exact h)))]
+  rfl
+
+/-- a change of `definitions.LanguageAssociation.definitions` -/
+theorem modPath_assocDefs (one : List V) (ld ld' : List (String × V)) (ga : V) (f : V → M V)
+    (h : f (.dict ld) = .ok (.dict ld')) :
+    modPath (skel ga (group "LanguageAssociation" (some one) ld))
+      [.str "definitions", .str "LanguageAssociation", .str "definitions"] f
+    = .ok (skel ga (group "LanguageAssociation" (some one) ld')) := by
+  unfold skel group
+  rw [modPath_dict_cons _ _ _ _ _ _ rfl (modPath_dict_cons _ _ _ _ _ _ rfl (modPath_dict_cons _ _ _ _ _ _ rfl
+    (by rw [modPath_nil]; exact h)))]
+  rfl
+
+/-- a change of `definitions.LanguageAssociation.oneOf` -/
+theorem modPath_assocOneOf (one one' : List V) (ld : List (String × V)) (ga : V) (f : V → M V)
+    (h : f (.list one) = .ok (.list one')) :
+    modPath (skel ga (group "LanguageAssociation" (some one) ld))
+      [.str "definitions", .str "LanguageAssociation", .str "oneOf"] f
+    = .ok (skel ga (group "LanguageAssociation" (some one') ld)) := by
+  unfold skel group
+  rw [modPath_dict_cons _ _ _ _ _ _ rfl (modPath_dict_cons _ _ _ _ _ _ rfl (modPath_dict_cons _ _ _ _ _ _ rfl
+    (by rw [modPath_nil]; exact h)))]
+  rfl
+
+/-- a change below `definitions.LanguageAssociation.definitions` (a longer path) -/
+theorem modPath_assocDefs_path (one : List V) (ld ld' : List (String × V)) (ga : V) (ks : List V) (f : V → M V)
+    (h : modPath (.dict ld) ks f = .ok (.dict ld')) :
+    modPath (skel ga (group "LanguageAssociation" (some one) ld))
+      (.str "definitions" :: .str "LanguageAssociation" :: .str "definitions" :: ks) f
+    = .ok (skel ga (group "LanguageAssociation" (some one) ld')) := by
+  unfold skel group
+  rw [modPath_dict_cons _ _ _ _ _ _ rfl (modPath_dict_cons _ _ _ _ _ _ rfl (modPath_dict_cons _ _ _ _ _ _ rfl h))]
+  rfl
+
+/-- reading `definitions.LanguageAssociation.definitions` -/
+theorem get_assocDefs (one : Option (List V)) (ld : List (String × V)) (ga : V) :
+    (do let a ← getItem (skel ga (group "LanguageAssociation" one ld)) (.str "definitions")
+        let b ← getItem a (.str "LanguageAssociation")
+        getItem b (.str "definitions")) = .ok (.dict ld) := by
+  cases one <;> rfl
+
+
 end MalVerif.Py.Classes
